@@ -84,7 +84,9 @@ def scaler_case(cid, kind, X, w, wm, ws, cw, atol=(0, 1), rtol=(0, 1), tiny=True
     if w is None and wm and ws and cw:
         route("sklearn-StandardScaler", Xf, None, sk=True)
     if wm and tiny:
-        route("shifted-input", Xf + rng.integers(-9, 10, size=m), sw)
+        # small and very large offsets (a one-pass variance E[x^2] - E[x]^2 cancels catastrophically at 1e8 + O(1))
+        big = float(rng.choice([1, 1, 2 ** 20, 2 ** 26]))
+        route("shifted-input" if big == 1 else "shifted-input-by-large-offset", Xf + rng.integers(-9, 10, size=m) * big, sw)
     if ws and wm and tiny and rtol[0] == 0:
         a = float(rng.choice([-4, -0.5, 2, 8]))
         route("rescaled-input", Xf * a, sw, sign=True)
